@@ -6,6 +6,7 @@ require (
 	github.com/iotaledger/iota.go v1.0.0
 	github.com/wollac/iota-crypto-demo v0.0.0
 	golang.org/x/crypto v0.2.0
+	golang.org/x/text v0.4.0
 	pgregory.net/rapid v1.3.0
 )
 
